@@ -419,7 +419,48 @@ def r8_recorded_locations_are_relative(cx):
               "the location given to add_pack is empty or made relative to the manifest's directory (absolute close_file() results reaching it unrelativised: lines %s)" % raw, ln=t.get("ln"))
 
 
+def r9_tail_pack_may_fill_the_file(cx):
+    """'embedded at the end of another file': a pack found through its mirrored tail header occupies the last
+    `file_size` bytes of the file, *including* the 64 bytes of that tail and possibly the whole file. The only bound
+    on the declared size is therefore the size of the file itself -- the comparison that rejects a declared size uses
+    `reader.size()` as it is (no arithmetic on it) and lets `file_size == reader.size()` through."""
+    F = cx.F
+    f = F.one(regex=r"reader::jubako::open_as_container_pack$")
+    b = F.body(f)
+    cmps = []
+    for i, t in b.calls(r"cmp::PartialOrd>::(gt|ge|lt|le)$"):
+        oa, ob = b.origins(t["args"][0]), b.origins(t["args"][1])
+        if ("field", "file_size") in oa and ("field", "file_size") not in ob:
+            cmps.append((i, t, 0, ob))
+        elif ("field", "file_size") in ob and ("field", "file_size") not in oa:
+            cmps.append((i, t, 1, oa))
+    if not cmps:
+        raise AnchorLost("open_as_container_pack: no comparison of the declared file_size")
+    cuts = [i for i, _ in b.calls(r"Reader::cut$")]
+    for k, (i, t, fs_pos, other) in enumerate(cmps):
+        op = re.search(r"(gt|ge|lt|le)$", callee_str(t)).group(1)
+        rel = {"gt": lambda x, y: x > y, "ge": lambda x, y: x >= y, "lt": lambda x, y: x < y, "le": lambda x, y: x <= y}[op]
+        cond = (lambda fs, sz: rel(fs, sz)) if fs_pos == 0 else (lambda fs, sz: rel(sz, fs))
+        # which outcome of the comparison goes on to cut the pack out of the file?
+        sw = [s for s in range(b.n) if b.term(s)["k"] == "switch" and ("call", i) in b.origins(b.term(s)["op"], through_calls=False) and 0 in b.term(s)["vals"]]
+        verdict = None
+        if sw:
+            st = b.term(sw[0])
+            false_arm, true_arm = st["targets"][st["vals"].index(0)], st["otherwise"]
+            on_true = any(c in b.reachable(true_arm, avoid={sw[0]} | b.error_blocks()) for c in cuts)
+            on_false = any(c in b.reachable(false_arm, avoid={sw[0]} | b.error_blocks()) for c in cuts)
+            if on_true != on_false:
+                accepts = (lambda fs, sz: cond(fs, sz)) if on_true else (lambda fs, sz: not cond(fs, sz))
+                verdict = accepts(100, 100) and accepts(99, 100) and not accepts(101, 100)
+        arith = sorted({callee_str(b.term(x[1])).split("::")[-1] for x in other if x[0] == "call" and call_is(b.term(x[1]), r"ops::(Sub|Add)(<.*>)?>::(sub|add)$", r"(checked|saturating|wrapping)_(sub|add)$")})
+        consts = sorted(x[1] for x in other if x[0] == "const" and isinstance(x[1], int) and not isinstance(x[1], bool))
+        from_size = any(x[0] == "call" and call_is(b.term(x[1]), r"Reader::size$") for x in other)
+        cx.ob("R9", "R9/open_as_container_pack/declared-size-bounded-by-the-file-size#%d" % k, bool(verdict) and from_size and not arith and not consts, f,
+              "the declared size of a pack found through its tail is accepted up to and including reader.size() itself (accepts equal/smaller and rejects larger: %s; bound from Reader::size: %s; arithmetic on the bound: %s %s)" % (verdict, from_size, arith, consts), ln=t.get("ln"))
+
+
 RULES = [
+    ("R9", r9_tail_pack_may_fill_the_file, 1),
     ("R8", r8_recorded_locations_are_relative, 3),
     ("R7", r7_manifest_search_is_order_independent, 2),
     ("R1", r1_chain, 6),
